@@ -1,4 +1,5 @@
 """C18 - the skip list behaves as an ordered map under any operation history."""
+import atexit
 import hashlib
 import json
 import os
@@ -61,28 +62,43 @@ def stage():
         [(HOOK, "maplike/skiplist/verif_hook.go")])
 
 
-def _run(ctx, tier=None, replay=None):
+_BUILT = {}
+
+
+def _exe():
+    """stage + build once per ./check process (shrinking re-runs the same binary many times)"""
+    if "exe" in _BUILT:
+        return _BUILT["exe"]
     d = stage()
-    try:
-        exe = os.path.join(d, "c18.bin")
-        rc, out = vlib.go_build(d, "./cmd/c18", exe)
-        if rc != 0:
-            raise vlib.HarnessError("harness does not build against /repo/internal/maplike:\n" + out[-1500:])
-        env = dict(ctx.env)
-        if tier:
-            env["VERIF_TIER"] = tier
-        if replay is not None:
-            rp = os.path.join(d, "replay.jsonl")
-            with open(rp, "w") as f:
-                for c in replay:
-                    f.write(json.dumps(spec_of(c)) + "\n")
-            env["VERIF_REPLAY"] = rp
-        rc, so, se = vlib.sh2([exe], env=env, timeout=1800)
-        if rc != 0:
-            raise vlib.HarnessError("harness failed (rc %d): %s" % (rc, se[-1500:]))
-        return [json.loads(l) for l in so.split("\n") if l.strip()]
-    finally:
-        shutil.rmtree(d, ignore_errors=True)
+    atexit.register(shutil.rmtree, d, ignore_errors=True)
+    exe = os.path.join(d, "c18.bin")
+    rc, out = vlib.go_build(d, "./cmd/c18", exe)
+    if rc != 0:
+        raise vlib.HarnessError("harness does not build against /repo/internal/maplike:\n" + out[-1500:])
+    _BUILT["exe"] = exe
+    _BUILT["n"] = 0
+    return exe
+
+
+def _run(ctx, tier=None, replay=None):
+    exe = _exe()
+    env = dict(ctx.env)
+    if tier:
+        env["VERIF_TIER"] = tier
+    rp = None
+    if replay is not None:
+        _BUILT["n"] += 1
+        rp = os.path.join(os.path.dirname(exe), "replay%d.jsonl" % _BUILT["n"])
+        with open(rp, "w") as f:
+            for c in replay:
+                f.write(json.dumps(spec_of(c)) + "\n")
+        env["VERIF_REPLAY"] = rp
+    rc, so, se = vlib.sh2([exe], env=env, timeout=1800)
+    if rp:
+        os.remove(rp)
+    if rc != 0:
+        raise vlib.HarnessError("harness failed (rc %d): %s" % (rc, se[-1500:]))
+    return [json.loads(l) for l in so.split("\n") if l.strip()]
 
 
 def spec_of(c):
@@ -96,10 +112,27 @@ def spec_of(c):
     return s
 
 
+def _balance(cases):
+    """reorder so that every shard of SHARD consecutive cases carries about the same amount of text
+    (the long random histories would otherwise all land in the last coqc)"""
+    n = len(cases)
+    nb = max(1, -(-n // SHARD))
+    cap = [SHARD] * nb
+    cap[-1] = n - SHARD * (nb - 1)
+    bins = [[] for _ in range(nb)]
+    load = [0] * nb
+    size = [sum(len(s["print"]) * 4 + sum(len(e["f"]) for e in s["print"]) + len(s["gets"]) for s in c["steps"]) for c in cases]
+    for i in sorted(range(n), key=lambda i: -size[i]):
+        b = min((j for j in range(nb) if len(bins[j]) < cap[j]), key=lambda j: load[j])
+        bins[b].append(i)
+        load[b] += size[i]
+    return [cases[i] for b in bins for i in sorted(b)]
+
+
 def run_impl(ctx, tier=None):
     if ctx.replay_cases:
         return _run(ctx, replay=ctx.replay_cases)
-    return _run(ctx, tier=tier)
+    return _balance(_run(ctx, tier=tier))
 
 
 def _opt(x):
@@ -223,6 +256,9 @@ def histogram(cases):
     return h
 
 
+_SHRUNK = {}
+
+
 def shrink(ctx, c):
     """drop operations (then the tail after the first failure) while the oracle still rejects a re-run of the real code"""
     def failing(x):
@@ -240,6 +276,9 @@ def shrink(ctx, c):
     bad = _oracle(cur)
     if bad is None:
         return c
+    sig0 = json.dumps(signature(c), sort_keys=True)
+    if sig0 in _SHRUNK:
+        return _SHRUNK[sig0]
     # cut after the first failing step
     if bad[0] + 1 < len(cur["steps"]):
         t = rerun([cur["steps"][:bad[0] + 1]])[0]
@@ -263,6 +302,7 @@ def shrink(ctx, c):
         if nxt is None:
             break
         cur = nxt
+    _SHRUNK[sig0] = cur
     return cur
 
 
